@@ -5,6 +5,7 @@
   pathutil.rs / filechange.rs on every run.
 -/
 import Frrs.Proofs.FileChange
+import Frrs.Extracted
 namespace Frrs.C15
 open Frrs
 set_option linter.unusedSimpArgs false
@@ -178,5 +179,14 @@ example : handleFileChangeLine { paths := [b!"a"], renames := [(b!"a", b!"x y")]
     exporter form (`ReprOf` excludes it) and such a line is passed through verbatim. -/
 example : handleFileChangeLine { paths := [b!"zzz"] } b!"M 100644 :1 a b\n"
     = some b!"M 100644 :1 a b\n" := by decide +kernel
+
+/-! ### the importer reads the emitted path as written -/
+
+/-- "the importer sees the same path" also depends on how the importer is started: `git fast-import` is run with
+    `-c core.ignorecase=false` unconditionally (and the exporter with `-c core.quotepath=false` where the audited table says
+    so), whatever the platform and whatever the target repository's own configuration says — otherwise an importer in a
+    repository with `core.ignorecase=true` folds `lib/readme.md` onto `lib/README.md`. The command lines, with which
+    arguments are conditional, are extracted from pipes.rs on every run and compared with the audited table. -/
+theorem importer_flags_audited : Extracted.pipeArgs = Pipe.auditedPipeArgs := by decide +kernel
 
 end Frrs.C15
